@@ -232,6 +232,42 @@ def gen_conversions(rng, full):
                 out.append("%s 3 %s %s setd 1/2" % (cls, first, op))
     return out
 
+# ---------------------------------------------------------------- rejected setters must not half-update
+def table_at(rng, n1, n2, n3, bad, i, j):
+    """all rows valid (never crumb rows), except row (i,j) of kind `bad`"""
+    rows = [[make_row(rng, n3, rng.choice(["dyadic", "dyadic", "general", "off_in_hi", "off_in_lo"])) for _ in range(n2)] for _ in range(n1)]
+    if bad is not None: rows[i][j] = make_row(rng, n3, bad)
+    flat = [x for m in rows for r in m for x in r]
+    return "%d %s" % (len(flat), " ".join(fx(x) for x in flat))
+
+def gen_half_update(rng, full):
+    """object with identity dynamics -> accepted setter with DIFFERENT valid dynamics -> rejected setter whose only bad
+    row sits in the last or a middle action (and any state) -> the dump must be unchanged.  For the sparse template
+    setters the bad row is a crumb row (valid on the plain check, fails only once entries <= 1e-6 are dropped)."""
+    out = []
+    for cls in ["md", "ms", "pd", "ps"]:
+        sparse = cls in ("ms", "ps"); pomdp = cls in ("pd", "ps")
+        setters = ["sett3", "settm"] + (["seto3", "setom"] if pomdp else [])
+        for st in setters:
+            for rep in range(3 if full else 1):
+                S = 3; A = rng.choice([2, 3, 3]); O = 3
+                a_bad = A - 1 if (rep % 2 == 0 or A == 2) else rng.randrange(1, A)
+                s_bad = rng.randrange(S)
+                template = st in ("sett3", "seto3")
+                bad = "smalls2" if (sparse and template and (rep == 0 or maybe(rng, 0.6))) else rng.choice(["sum_lo", "nan", "neg", "off_out_hi", "off_out_lo", "inf"])
+                n3 = O if st in ("seto3", "setom") else S
+                if template: good = table_at(rng, S, A, n3, None, 0, 0); badt = table_at(rng, S, A, n3, bad, s_bad, a_bad)
+                else:        good = table_at(rng, A, S, n3, None, 0, 0); badt = table_at(rng, A, S, n3, bad, a_bad, s_bad)
+                first = "ctor3 %d %d 3/4" % (S, A)
+                if pomdp: first = "pctor %d %s" % (O, first)
+                # also through the (s,a,t,r,d) constructor: a throwing constructor leaves the old object
+                tail = "setd 1/2"
+                if st == "sett3" and maybe(rng, 0.5):
+                    c = "ctort %d %d 1/2 %s %s" % (S, A, table_at(rng, S, A, S, bad, s_bad, a_bad), rewards(rng, S * A * S, sparse))
+                    tail = (("pctor %d %s" % (O, c)) if pomdp else c) + " setd 1/2"
+                out.append("%s %d %s %s %s %s %s %s" % (cls, 4 + tail.count("ctort"), first, st, good, st, badt, tail))
+    return out
+
 def gen(rng, tier):
     n = {"quick": 420, "thorough": 4000, "search": 1500}[tier]
     out = []
@@ -272,6 +308,8 @@ def gen(rng, tier):
             "%d %s" % (S * A * S, " ".join(str(rng.randint(-4, 8)) for _ in range(S * A * S)))))
     # -- converting constructors from arbitrary sources (generic wrapper / NO_CHECK library models)
     out += gen_conversions(rng, tier != "quick")
+    # -- rejected setters whose only bad row is in a late action: no half-update
+    out += gen_half_update(rng, tier != "quick")
     # -- factored models: DDNGraph::push sequences, then CooperativeModel constructor / setDiscount
     for _ in range(max(30, n // 8)):
         out.append(gen_coop(rng))
